@@ -42,7 +42,7 @@ META = {
 # programs on which the as-built configuration of the spec must violate an invariant (base class in another package)
 ASBUILT_WITNESSES = [
     {"depth": 2, "fan": 1, "same": False, "wrap": 3, "nest": "lib", "split": ["none", "one"], "xtype": "Real", "xdims": 0,
-     "xpre": "", "ypre": "", "ieq": False, "attr": "", "mods": [], "clash": False, "shadow": False, "skew": False},
+     "xpre": "", "ypre": "", "ieq": False, "attr": "", "mods": [], "clash": False, "shadow": False, "skew": False, "twin": False},
 ]
 
 
@@ -97,7 +97,7 @@ def draw_pvs(rng, n):
                     "split": split, "xtype": rng.choice(["Real", "Integer", "Boolean", "aR", "aI", "aB", "aaR"]),
                     "xdims": rng.choice([0, 0, 1, 2]), "xpre": rng.choice(pre), "ypre": rng.choice(pre),
                     "ieq": rng.random() < 0.5, "attr": "", "mods": [],
-                    "clash": rng.random() < 0.3, "shadow": rng.random() < 0.3, "skew": rng.random() < 0.25})
+                    "clash": rng.random() < 0.3, "shadow": rng.random() < 0.3, "skew": rng.random() < 0.25, "twin": False})
     return out
 
 
@@ -105,6 +105,17 @@ def run(ctx):
     thorough = ctx.tier == "thorough"
     cover = {}
     cfg = "Instantiate_C07_thorough.cfg" if thorough else "Instantiate_C07_quick.cfg"
+
+    def witness(k):
+        return inst_run.run_file_family(ctx, "Instantiate_file_asbuilt.cfg", [ASBUILT_WITNESSES[k]],
+                                        "as-built switches on witness program %d: TLC is expected to report a violation" % k,
+                                        shards=1, expect_violation=True)[1]
+
+    # the small side runs go on while the main family is enumerated
+    side = ThreadPoolExecutor(len(ASBUILT_WITNESSES) + 1)
+    wfut = [side.submit(witness, k) for k in range(len(ASBUILT_WITNESSES))]
+    lfut = side.submit(inst_run.run_spec, ctx, "Instantiate_C07_asbuilt_log.cfg", "as-built predictions for the cross-check (%s)" % (
+        "whole family" if thorough else "an eighth of the family"), 8, None, 1700, False, None if thorough else 1)
     progs, _ = inst_run.run_spec(ctx, cfg, "hier family, intended switches: operational = declarative, one variable per leaf")
     if not progs:
         raise MachineryError("vacuous: no program printed by %s" % cfg)
@@ -120,7 +131,7 @@ def run(ctx):
     # vacuity: every dimension of the family must have been exercised
     need = ["depth1", "depth2", "depth3", "fan2", "same", "wrap0", "wrap1", "wrap2", "wrap3", "nest-user", "nest-userbase",
             "xtype-aR", "xtype-aI", "xtype-aB", "xtype-aaR", "xtype-Integer", "xtype-Boolean", "xdims1", "xdims2",
-            "xpre-input", "xpre-output", "xpre-parameter", "xpre-flow", "ypre-input", "ypre-output", "ieq", "clash", "shadow", "skew"] + \
+            "xpre-input", "xpre-output", "xpre-parameter", "xpre-flow", "ypre-input", "ypre-output", "ieq", "clash", "shadow", "skew", "twin", "wrap4"] + \
            ["split%d-%s" % (i, m) for i in (1, 2, 3) for m in ("one", "late", "chain", "multi")]
     if thorough:
         need += ["depth4", "xpre-constant", "xpre-discrete"]
@@ -130,24 +141,18 @@ def run(ctx):
     for io in ("input", "output"):      # prefix x alias type x nested level must be combined
         if not any(p["pv"]["depth"] >= 2 and p["pv"]["xpre"] == io and p["pv"]["xtype"] in ("aR", "aI", "aB", "aaR") for p in progs):
             raise MachineryError("vacuous: no nested %s variable of alias type in the family" % io)
-    # as-built configuration: TLC must find the violated invariant, and its predictions must match the code
+    # as-built configuration (started at the beginning, collected here): TLC must find the violated invariant,
+    # and its predictions must match the code
     violated = {}
-
-    def witness(k):
-        return inst_run.run_file_family(ctx, "Instantiate_file_asbuilt.cfg", [ASBUILT_WITNESSES[k]],
-                                        "as-built switches on witness program %d: TLC is expected to report a violation" % k,
-                                        shards=1, expect_violation=True)[1]
-
-    with ThreadPoolExecutor(len(ASBUILT_WITNESSES)) as ex:
-        wres = list(ex.map(witness, range(len(ASBUILT_WITNESSES))))
+    wres = [f.result() for f in wfut]
     for k, ab_res in enumerate(wres):
         v = sorted({x for r in ab_res for x in r.violated})
         if not v:
             raise MachineryError("as-built configuration of Instantiate.tla does not violate any invariant on witness %d "
                                  "(switches out of date?)" % k)
         violated["witness-%d" % k] = v
-    lp, _ = inst_run.run_spec(ctx, "Instantiate_C07_asbuilt_log.cfg", "as-built predictions for the cross-check (%s)" % (
-        "whole family" if thorough else "an eighth of the family"), shards=8, only=None if thorough else 1)
+    lp, _ = lfut.result()
+    side.shutdown()
     items = [(p, j, False) for p in lp for j in range(len(p["variants"]))]
     res = par.pmap(inst_run.check_variant, items, inst_run.PROCS)
     agree = differ = 0
